@@ -201,4 +201,415 @@ theorem build_some {root fuel : Nat} {adds : Adds} (h : build g root fuel = some
   simp only [build, Option.map_eq_some_iff] at h
   exact h
 
+/-! ## 3. Structural invariant of the loop -/
+
+@[simp] theorem stepWith_vis (s : State) (p : Node) (rest : List Node) :
+    (stepWith g s p rest).vis = (expand g s.vis (g.kids p.ty)).vis := rfl
+@[simp] theorem stepWith_queue (s : State) (p : Node) (rest : List Node) :
+    (stepWith g s p rest).queue = rest ++ (expand g s.vis (g.kids p.ty)).pushed := rfl
+@[simp] theorem stepWith_adds (s : State) (p : Node) (rest : List Node) :
+    (stepWith g s p rest).adds = s.adds ++ [(p, (expand g s.vis (g.kids p.ty)).preds)] := rfl
+
+/-- A node that has been put on the queue (now or earlier). -/
+def Made (s : State) (m : Node) : Prop := m ∈ s.queue ∨ ∃ b ∈ s.adds, b.1 = m
+
+theorem made_step {s : State} {p : Node} {rest : List Node} (hq : s.queue = p :: rest) {m : Node}
+    (h : Made s m) : Made (stepWith g s p rest) m := by
+  rcases h with h | ⟨b, hb, rfl⟩
+  · rw [hq] at h
+    rcases List.mem_cons.1 h with rfl | h
+    · exact Or.inr ⟨(m, (expand g s.vis (g.kids m.ty)).preds), by simp, rfl⟩
+    · exact Or.inl (by simp [h])
+  · exact Or.inr ⟨b, by simp [hb], rfl⟩
+
+theorem rootNode_ok (root : Nat) : NodeOK g (rootNode g root) :=
+  ⟨by simp [rootNode, plainNode], by simp [rootNode, plainNode], by simp [rootNode, plainNode]⟩
+
+structure InvA (g : TyGraph) (root : Nat) (s : State) : Prop where
+  qPlain : ∀ q ∈ s.queue, q.isRef = false ∧ q.ty ∈ s.vis
+  addShape : ∀ a ∈ s.adds, a.1.isRef = false ∧ a.2.map nodeKey = g.kids a.1.ty ∧ ∀ c ∈ a.2, NodeOK g c
+  expanded : ∀ a ∈ s.adds, ∀ c ∈ a.2, c.isRef = false → Made s c
+  hasSucc : ∀ q, Made s q → q = rootNode g root ∨ ∃ a ∈ s.adds, q ∈ a.2
+  rootIn : Made s (rootNode g root)
+
+theorem invA_init (root : Nat) : InvA g root (init g root) where
+  qPlain := by simp [init, rootNode, plainNode]
+  addShape := by simp [init]
+  expanded := by simp [init]
+  hasSucc := by
+    intro q h
+    rcases h with h | ⟨b, hb, _⟩
+    · left; simpa [init] using h
+    · simp [init] at hb
+  rootIn := Or.inl (by simp [init])
+
+theorem invA_step {root : Nat} (s : State) (p : Node) (rest : List Node) (hq : s.queue = p :: rest)
+    (h : InvA g root s) : InvA g root (stepWith g s p rest) where
+  qPlain := by
+    intro q hq'
+    simp only [stepWith_queue, List.mem_append] at hq'
+    rcases hq' with hq' | hq'
+    · have := h.qPlain q (by rw [hq]; exact List.mem_cons_of_mem _ hq')
+      exact ⟨this.1, expand_vis_mono this.2⟩
+    · exact ⟨((expand_pushed_iff _ _ _).1 hq').2, expand_pushed_vis _ _ q hq'⟩
+  addShape := by
+    intro a ha
+    simp only [stepWith_adds, List.mem_append, List.mem_singleton] at ha
+    rcases ha with ha | rfl
+    · exact h.addShape a ha
+    · exact ⟨(h.qPlain p (by simp [hq])).1, expand_preds_keys _ _, expand_preds_ok _ _⟩
+  expanded := by
+    intro a ha c hc hr
+    simp only [stepWith_adds, List.mem_append, List.mem_singleton] at ha
+    rcases ha with ha | rfl
+    · exact made_step hq (h.expanded a ha c hc hr)
+    · exact Or.inl (by simp [(expand_pushed_iff _ _ _).2 ⟨hc, hr⟩])
+  hasSucc := by
+    intro q hm
+    have old : Made s q → q = rootNode g root ∨ ∃ a ∈ (stepWith g s p rest).adds, q ∈ a.2 := by
+      intro hm
+      rcases h.hasSucc q hm with h1 | ⟨a, ha, hqa⟩
+      · exact Or.inl h1
+      · exact Or.inr ⟨a, by simp [ha], hqa⟩
+    rcases hm with hm | ⟨b, hb, rfl⟩
+    · simp only [stepWith_queue, List.mem_append] at hm
+      rcases hm with hm | hm
+      · exact old (Or.inl (by rw [hq]; exact List.mem_cons_of_mem _ hm))
+      · exact Or.inr ⟨(p, _), by simp, ((expand_pushed_iff _ _ _).1 hm).1⟩
+    · simp only [stepWith_adds, List.mem_append, List.mem_singleton] at hb
+      rcases hb with hb | rfl
+      · exact old (Or.inr ⟨b, hb, rfl⟩)
+      · exact old (Or.inl (by simp [hq]))
+  rootIn := made_step hq h.rootIn
+
+/-- The structural facts about a finished build. -/
+theorem build_invA {root fuel : Nat} {adds : Adds} (h : build g root fuel = some adds) :
+    ∃ vis, InvA g root { vis := vis, queue := [], adds := adds } := by
+  obtain ⟨s, hs, rfl⟩ := build_some h
+  obtain ⟨hI, hq⟩ := run_inv (InvA g root) (fun s p rest => invA_step s p rest) fuel _ _ (invA_init root) hs
+  refine ⟨s.vis, ?_⟩
+  have : s = { vis := s.vis, queue := [], adds := s.adds } := by cases s; simp_all
+  rw [← this]; exact hI
+
+/-! ## 4. Topological orders of the produced `add` calls -/
+
+/-- `c` was given as a predecessor of `p` in some `graph.add(p, …, c, …)`. -/
+def Edge (adds : Adds) (c p : Node) : Prop := ∃ a ∈ adds, a.1 = p ∧ c ∈ a.2
+
+def allNodes (adds : Adds) : List Node := adds.flatMap (fun a => a.1 :: a.2)
+
+/-- graphlib's contract for `static_order()`: every node exactly once, predecessors first. -/
+structure IsTopoOrder (adds : Adds) (o : List Node) : Prop where
+  nodup : o.Nodup
+  complete : ∀ n, n ∈ o ↔ n ∈ allNodes adds
+  ordered : ∀ c p, Edge adds c p → o.idxOf c < o.idxOf p
+
+theorem mem_allNodes {adds : Adds} {n : Node} :
+    n ∈ allNodes adds ↔ (∃ a ∈ adds, a.1 = n) ∨ ∃ a ∈ adds, n ∈ a.2 := by
+  simp only [allNodes, List.mem_flatMap, List.mem_cons]
+  constructor
+  · rintro ⟨a, ha, h | h⟩
+    · exact Or.inl ⟨a, ha, h.symm⟩
+    · exact Or.inr ⟨a, ha, h⟩
+  · rintro (⟨a, ha, h⟩ | ⟨a, ha, h⟩)
+    · exact ⟨a, ha, Or.inl h.symm⟩
+    · exact ⟨a, ha, Or.inr h⟩
+
+section Final
+variable {root fuel : Nat} {adds : Adds} {o : List Node}
+
+/-- Every node of a finished build that is not a forward reference was a parent of its own `add`. -/
+theorem parent_of_plain (hb : build g root fuel = some adds) {n : Node} (hn : n ∈ allNodes adds)
+    (hr : n.isRef = false) : ∃ a ∈ adds, a.1 = n := by
+  obtain ⟨vis, hI⟩ := build_invA hb
+  rcases mem_allNodes.1 hn with h | ⟨a, ha, hna⟩
+  · exact h
+  · rcases hI.expanded a ha n hna hr with h | h
+    · simp at h
+    · exact h
+
+theorem all_nodeOK (hb : build g root fuel = some adds) {n : Node} (hn : n ∈ allNodes adds) : NodeOK g n := by
+  obtain ⟨vis, hI⟩ := build_invA hb
+  have hpred : ∀ a ∈ adds, n ∈ a.2 → NodeOK g n := fun a ha hna => (hI.addShape a ha).2.2 n hna
+  rcases mem_allNodes.1 hn with ⟨a, ha, rfl⟩ | ⟨a, ha, hna⟩
+  · rcases hI.hasSucc a.1 (Or.inr ⟨a, ha, rfl⟩) with h | ⟨b, hb', hab⟩
+    · rw [h]; exact rootNode_ok root
+    · exact hpred b hb' hab
+  · exact hpred a ha hna
+
+/-- (c1) No node occurs twice. -/
+theorem order_nodup (_hb : build g root fuel = some adds) (ho : IsTopoOrder adds o) : o.Nodup := ho.nodup
+
+theorem idxOf_lt_of_mem {o : List Node} {n : Node} (h : n ∈ o) : o.idxOf n < o.length :=
+  List.idxOf_lt_length_iff.2 h
+
+/-- (c2) The last node is the root. -/
+theorem root_last (hb : build g root fuel = some adds) (ho : IsTopoOrder adds o) :
+    o.getLast? = some (rootNode g root) := by
+  obtain ⟨vis, hI⟩ := build_invA hb
+  have hroot : rootNode g root ∈ o := by
+    rcases hI.rootIn with h | ⟨b, hb', hbr⟩
+    · simp at h
+    · exact (ho.complete _).2 (mem_allNodes.2 (Or.inl ⟨b, hb', hbr⟩))
+  cases hl : o.getLast? with
+  | none => simp [List.getLast?_eq_none_iff] at hl; subst hl; simp at hroot
+  | some x =>
+    obtain ⟨ini, hini⟩ := List.getLast?_eq_some_iff.1 hl
+    have hnd := ho.nodup
+    rw [hini] at hnd
+    have hx : x ∉ ini := by
+      intro hx
+      have := (List.nodup_append.1 hnd).2.2 x hx x (by simp)
+      exact this rfl
+    have hidx : o.idxOf x = ini.length := by
+      rw [hini, List.idxOf_append]; simp [hx]
+    have hxo : x ∈ o := by rw [hini]; simp
+    -- x is not a predecessor of anything
+    have nopred : ∀ a ∈ adds, x ∉ a.2 := by
+      intro a ha hxa
+      have h1 := ho.ordered x a.1 ⟨a, ha, rfl, hxa⟩
+      have h2 : o.idxOf a.1 < o.length :=
+        idxOf_lt_of_mem ((ho.complete _).2 (mem_allNodes.2 (Or.inl ⟨a, ha, rfl⟩)))
+      have hlen : o.length = ini.length + 1 := by rw [hini]; simp
+      omega
+    rcases mem_allNodes.1 ((ho.complete _).1 hxo) with ⟨a, ha, rfl⟩ | ⟨a, ha, hxa⟩
+    · rcases hI.hasSucc a.1 (Or.inr ⟨a, ha, rfl⟩) with h | ⟨b, hb', hab⟩
+      · rw [h]
+      · exact absurd hab (nopred b hb')
+    · exact absurd hxa (nopred a ha)
+
+/-- (c3) Every node is preceded by a node for each member its type directly contains
+    (same member name, same member type). -/
+theorem members_precede (hb : build g root fuel = some adds) (ho : IsTopoOrder adds o)
+    {n : Node} (hn : n ∈ o) (hr : n.isRef = false) :
+    ∀ vc ∈ g.kids n.ty, ∃ m ∈ o, m.var = vc.1 ∧ m.ty = vc.2 ∧ o.idxOf m < o.idxOf n := by
+  obtain ⟨vis, hI⟩ := build_invA hb
+  obtain ⟨a, ha, rfl⟩ := parent_of_plain hb ((ho.complete _).1 hn) hr
+  intro vc hvc
+  rw [← (hI.addShape a ha).2.1] at hvc
+  obtain ⟨m, hm, rfl⟩ := List.mem_map.1 hvc
+  exact ⟨m, (ho.complete _).2 (mem_allNodes.2 (Or.inr ⟨a, ha, hm⟩)), rfl, rfl, ho.ordered m a.1 ⟨a, ha, rfl, hm⟩⟩
+
+/-- (c4a) A node is a forward reference exactly when it is flagged cyclic and its type is a named
+    non-stdlib type; in particular every forward-reference node is flagged. -/
+theorem ref_iff_flagged_named (hb : build g root fuel = some adds) (ho : IsTopoOrder adds o)
+    {n : Node} (hn : n ∈ o) : n.isRef = (n.cyclic && g.cuttable n.ty) :=
+  (all_nodeOK hb ((ho.complete _).1 hn)).ref_iff
+
+theorem ref_flagged (hb : build g root fuel = some adds) (ho : IsTopoOrder adds o)
+    {n : Node} (hn : n ∈ o) (hr : n.isRef = true) : n.cyclic = true := by
+  have := ref_iff_flagged_named hb ho hn
+  rw [hr] at this
+  simp only [Bool.true_eq, Bool.and_eq_true] at this
+  exact this.1
+
+/-- (c5) Every deferred (flagged) node stands for a member of a later node: it carries that member's name
+    and exactly that member's type; a forward reference's `unwrapped` names the unwrapped class if there
+    is one and the referenced type otherwise. -/
+theorem deferred_denotes (hb : build g root fuel = some adds) (ho : IsTopoOrder adds o)
+    {n : Node} (hn : n ∈ o) (hc : n.cyclic = true) :
+    (∃ p ∈ o, p.isRef = false ∧ (n.var, n.ty) ∈ g.kids p.ty ∧ o.idxOf n < o.idxOf p) ∧
+    n.unwrapped = (if n.isRef && !g.ucls n.ty then n.ty else g.unw n.ty) := by
+  obtain ⟨vis, hI⟩ := build_invA hb
+  have hok := all_nodeOK hb ((ho.complete _).1 hn)
+  constructor
+  · have hpred : ∃ a ∈ adds, n ∈ a.2 := by
+      rcases mem_allNodes.1 ((ho.complete _).1 hn) with ⟨a, ha, rfl⟩ | h
+      · rcases hI.hasSucc a.1 (Or.inr ⟨a, ha, rfl⟩) with h | h
+        · rw [h] at hc; simp [rootNode, plainNode] at hc
+        · exact h
+      · exact h
+    obtain ⟨a, ha, hna⟩ := hpred
+    refine ⟨a.1, (ho.complete _).2 (mem_allNodes.2 (Or.inl ⟨a, ha, rfl⟩)), (hI.addShape a ha).1, ?_,
+      ho.ordered n a.1 ⟨a, ha, rfl, hna⟩⟩
+    rw [← (hI.addShape a ha).2.1]
+    exact List.mem_map.2 ⟨n, hna, rfl⟩
+  · rw [hok.unwrapped_eq]
+    cases n.isRef <;> cases g.ucls n.ty <;> simp
+
+end Final
+
+/-! ## 5. Well-formed annotation graphs -/
+
+/-- What the theorems below need of an annotation graph; `rk` certifies that every cycle of the member
+    relation passes through a named non-stdlib type. -/
+structure WF (g : TyGraph) (rk : Nat → Nat) : Prop where
+  rank : ∀ t, ∀ vc ∈ g.kids t, g.cuttable vc.2 = false → rk vc.2 < rk t
+  stdClosed : ∀ t, g.stdlib t = true → ∀ vc ∈ g.kids t, g.stdlib vc.2 = true
+  kidsUnw : ∀ t, g.kidTys (g.unw t) = g.kidTys t
+  unwIdem : ∀ t, g.unw (g.unw t) = g.unw t
+
+theorem out_of_range {t : Nat} (h : g.size ≤ t) : g.tys[t]? = none :=
+  List.getElem?_eq_none (by simpa [TyGraph.size] using h)
+
+/-- The decidable predicate `Graph.wf` implies `WF` with the computed rank. -/
+theorem wf_sound (h : wf g = true) : WF g (rank g) := by
+  simp only [wf, List.all_eq_true, List.mem_range, Bool.and_eq_true] at h
+  refine ⟨?_, ?_, ?_, ?_⟩
+  · intro t vc hvc hcut
+    by_cases ht : t < g.size
+    · have := (h t ht).1.1
+      simp only [rankOKAt, List.all_eq_true, Bool.or_eq_true, decide_eq_true_eq] at this
+      rcases this vc hvc with h1 | h1
+      · rw [hcut] at h1; cases h1
+      · exact h1
+    · simp [TyGraph.kids, out_of_range (Nat.le_of_not_lt ht)] at hvc
+  · intro t hst vc hvc
+    by_cases ht : t < g.size
+    · have := (h t ht).1.2
+      simp only [stdlibClosedAt, hst, Bool.not_true, Bool.false_or, List.all_eq_true] at this
+      exact this vc hvc
+    · simp [TyGraph.kids, out_of_range (Nat.le_of_not_lt ht)] at hvc
+  · intro t
+    by_cases ht : t < g.size
+    · have := (h t ht).2
+      simp only [unwOKAt, Bool.and_eq_true, beq_iff_eq] at this
+      exact this.1
+    · simp [TyGraph.unw, out_of_range (Nat.le_of_not_lt ht)]
+  · intro t
+    by_cases ht : t < g.size
+    · have := (h t ht).2
+      simp only [unwOKAt, Bool.and_eq_true, beq_iff_eq] at this
+      exact this.2
+    · simp [TyGraph.unw, out_of_range (Nat.le_of_not_lt ht)]
+
+theorem build_final {root fuel : Nat} {adds : Adds} (I : State → Prop) (hinit : I (init g root))
+    (hstep : ∀ s p rest, s.queue = p :: rest → I s → I (stepWith g s p rest))
+    (h : build g root fuel = some adds) : ∃ vis, I { vis := vis, queue := [], adds := adds } := by
+  obtain ⟨s, hs, rfl⟩ := build_some h
+  obtain ⟨hI, hq⟩ := run_inv I hstep fuel _ _ hinit hs
+  refine ⟨s.vis, ?_⟩
+  have : s = { vis := s.vis, queue := [], adds := s.adds } := by cases s; simp_all
+  rw [← this]; exact hI
+
+/-! ## 6. Flagged nodes are revisits -/
+
+/-- `v` is (up to unwrapping) the type of an unflagged, walked node among `M`. -/
+def Wit (g : TyGraph) (M : Node → Prop) (v : Nat) : Prop :=
+  ∃ m, M m ∧ m.cyclic = false ∧ m.isRef = false ∧ g.unw m.ty = g.unw v
+
+theorem wit_mono {M M' : Node → Prop} (h : ∀ m, M m → M' m) {v : Nat} : Wit g M v → Wit g M' v := by
+  rintro ⟨m, hm, h1, h2, h3⟩; exact ⟨m, h m hm, h1, h2, h3⟩
+
+theorem seen_wit (hidem : ∀ t, g.unw (g.unw t) = g.unw t) {M : Node → Prop} {vis : List Nat}
+    (H : ∀ v ∈ vis, Wit g M v) {c : Nat} (hs : seen g vis c = true) : Wit g M c := by
+  simp only [seen, Bool.or_eq_true, List.contains_iff_mem] at hs
+  rcases hs with hs | hs
+  · exact H c hs
+  · obtain ⟨m, hm, h1, h2, h3⟩ := H _ hs
+    exact ⟨m, hm, h1, h2, by rw [h3, hidem]⟩
+
+theorem expand_wit (hidem : ∀ t, g.unw (g.unw t) = g.unw t) (ks : List (Option Str × Nat)) :
+    ∀ (M : Node → Prop) (vis : List Nat), (∀ v ∈ vis, Wit g M v) →
+      (∀ v ∈ (expand g vis ks).vis, Wit g (fun m => M m ∨ m ∈ (expand g vis ks).pushed) v) ∧
+      (∀ n ∈ (expand g vis ks).preds, n.cyclic = true →
+        Wit g (fun m => M m ∨ m ∈ (expand g vis ks).pushed) n.ty) := by
+  induction ks with
+  | nil =>
+    intro M vis H
+    simp only [expand_nil]
+    exact ⟨fun v hv => wit_mono (fun m hm => Or.inl hm) (H v hv), by simp⟩
+  | cons k rest ih =>
+    obtain ⟨v, c⟩ := k
+    intro M vis H
+    cases h : (seen g vis c && g.cuttable c) with
+    | true =>
+      rw [expand_cons_ref h]
+      obtain ⟨ih1, ih2⟩ := ih M vis H
+      refine ⟨ih1, ?_⟩
+      intro n hn hc
+      rcases List.mem_cons.1 hn with rfl | hn
+      · simp only [Bool.and_eq_true] at h
+        exact wit_mono (fun m hm => Or.inl hm) (seen_wit hidem H h.1)
+      · exact ih2 n hn hc
+    | false =>
+      rw [expand_cons_plain h]
+      -- the new node, and what it adds to `visited`
+      have hc : ∀ u, g.unw u = g.unw c →
+          Wit g (fun m => M m ∨ m = plainNode g v c (seen g vis c && !g.stdlib c)) u := by
+        intro u hu
+        cases hs : seen g vis c with
+        | true =>
+          obtain ⟨m, hm, h1, h2, h3⟩ := seen_wit hidem H hs
+          exact ⟨m, Or.inl hm, h1, h2, by rw [h3, hu]⟩
+        | false =>
+          exact ⟨_, Or.inr rfl, by simp [plainNode], by simp [plainNode], by simp [plainNode, hu]⟩
+      have H' : ∀ u ∈ vis ++ [c, g.unw c],
+          Wit g (fun m => M m ∨ m = plainNode g v c (seen g vis c && !g.stdlib c)) u := by
+        intro u hu
+        simp only [List.mem_append, List.mem_cons, List.not_mem_nil, or_false] at hu
+        rcases hu with hu | rfl | rfl
+        · exact wit_mono (fun m hm => Or.inl hm) (H u hu)
+        · exact hc _ rfl
+        · exact hc _ (hidem c)
+      obtain ⟨ih1, ih2⟩ := ih _ _ H'
+      have mono : ∀ m, ((M m ∨ m = plainNode g v c (seen g vis c && !g.stdlib c)) ∨
+            m ∈ (expand g (vis ++ [c, g.unw c]) rest).pushed) →
+          (M m ∨ m ∈ plainNode g v c (seen g vis c && !g.stdlib c) ::
+            (expand g (vis ++ [c, g.unw c]) rest).pushed) := by
+        rintro m ((h1 | h1) | h1)
+        · exact Or.inl h1
+        · exact Or.inr (by simp [h1])
+        · exact Or.inr (List.mem_cons_of_mem _ h1)
+      refine ⟨fun u hu => wit_mono mono (ih1 u hu), ?_⟩
+      intro n hn hcy
+      rcases List.mem_cons.1 hn with rfl | hn
+      · simp only [plainNode, Bool.and_eq_true] at hcy
+        exact wit_mono (fun m hm => Or.inl hm) (seen_wit hidem H hcy.1)
+      · exact wit_mono mono (ih2 n hn hcy)
+
+structure InvJ (g : TyGraph) (s : State) : Prop where
+  visWit : ∀ v ∈ s.vis, Wit g (Made s) v
+  flagWit : ∀ a ∈ s.adds, ∀ c ∈ a.2, c.cyclic = true → Wit g (Made s) c.ty
+
+theorem invJ_init (hidem : ∀ t, g.unw (g.unw t) = g.unw t) (root : Nat) : InvJ g (init g root) where
+  visWit := by
+    intro v hv
+    refine ⟨rootNode g root, Or.inl (by simp [init]), by simp [rootNode, plainNode],
+      by simp [rootNode, plainNode], ?_⟩
+    simp only [init, List.mem_cons, List.not_mem_nil, or_false] at hv
+    rcases hv with rfl | rfl
+    · rfl
+    · simp [rootNode, plainNode, hidem]
+  flagWit := by simp [init]
+
+theorem invJ_step (hidem : ∀ t, g.unw (g.unw t) = g.unw t) (s : State) (p : Node) (rest : List Node)
+    (hq : s.queue = p :: rest) (h : InvJ g s) : InvJ g (stepWith g s p rest) := by
+  obtain ⟨e1, e2⟩ := expand_wit hidem (g.kids p.ty) (Made s) s.vis h.visWit
+  have mono : ∀ m, (Made s m ∨ m ∈ (expand g s.vis (g.kids p.ty)).pushed) → Made (stepWith g s p rest) m := by
+    rintro m (hm | hm)
+    · exact made_step hq hm
+    · exact Or.inl (by simp [hm])
+  refine ⟨fun v hv => wit_mono mono (e1 v hv), ?_⟩
+  intro a ha c hc hcy
+  simp only [stepWith_adds, List.mem_append, List.mem_singleton] at ha
+  rcases ha with ha | rfl
+  · exact wit_mono (fun m hm => made_step hq hm) (h.flagWit a ha c hc hcy)
+  · exact wit_mono mono (e2 c hc hcy)
+
+section Final
+variable {root fuel : Nat} {adds : Adds} {o : List Node} {rk : Nat → Nat}
+
+/-- (c4b) Every node flagged cyclic is a revisit: the sequence contains an unflagged, walked node of the
+    same type up to unwrapping (the occurrence that put the type into `visited`). -/
+theorem flagged_revisit (hw : WF g rk) (hb : build g root fuel = some adds) (ho : IsTopoOrder adds o)
+    {n : Node} (hn : n ∈ o) (hc : n.cyclic = true) :
+    ∃ m ∈ o, m.cyclic = false ∧ m.isRef = false ∧ g.unw m.ty = g.unw n.ty := by
+  obtain ⟨vis, hI⟩ := build_invA hb
+  obtain ⟨vis', hJ⟩ := build_final (InvJ g) (invJ_init hw.unwIdem root)
+    (fun s p rest => invJ_step hw.unwIdem s p rest) hb
+  have hpred : ∃ a ∈ adds, n ∈ a.2 := by
+    rcases mem_allNodes.1 ((ho.complete _).1 hn) with ⟨a, ha, rfl⟩ | h
+    · rcases hI.hasSucc a.1 (Or.inr ⟨a, ha, rfl⟩) with h | h
+      · rw [h] at hc; simp [rootNode, plainNode] at hc
+      · exact h
+    · exact h
+  obtain ⟨a, ha, hna⟩ := hpred
+  obtain ⟨m, hm, h1, h2, h3⟩ := hJ.flagWit a ha n hna hc
+  rcases hm with hm | ⟨b, hb', rfl⟩
+  · simp at hm
+  · exact ⟨b.1, (ho.complete _).2 (mem_allNodes.2 (Or.inl ⟨b, hb', rfl⟩)), h1, h2, h3⟩
+
+end Final
+
 end Typelib.C09
